@@ -242,7 +242,7 @@ pub fn plan(id: &str) -> Option<Plan> {
             floor: 50,
             engines: vec![
                 Engine { name: "sim", salt: 1, quick: 1500, thorough: 200_000, serial: false, run: Box::new(|s, t| c19::scenario(s, t)) },
-                Engine { name: "stress", salt: 2, quick: 6, thorough: 48, serial: true, run: Box::new(|s, t| c19::stress(s, t.pick(40_000, 200_000))) },
+                Engine { name: "stress", salt: 2, quick: 6, thorough: 16, serial: true, run: Box::new(|s, t| c19::stress(s, t.pick(40_000, 100_000))) },
             ],
             extra: None,
         },
